@@ -101,6 +101,7 @@ func lenSymField(sym string, externs map[string]bool) (string, bool) {
 func (w *world) ruleRef(a *agg, stats *counters) {
 	P := w.c.P
 	tables := w.tables()
+	rg := newRanger(w)
 	if len(tables) < 3 {
 		w.c.R.Failf("vacuity: only %d dedup tracker fields (named map/slice types) found on Writer, expected ≥ 3", len(tables))
 	}
@@ -141,10 +142,13 @@ func (w *world) ruleRef(a *agg, stats *counters) {
 				}
 			}
 		}
+		var shapes []keyShape
 		pairTX := map[string]string{} // slice field name -> table field name
 		type pathFacts struct {
 			appends map[string]string // slice field -> pos
+			appPos  map[string]Poly   // slice field -> position of the appended element
 			inserts map[string]bool   // table field
+			recVals []Poly            // integers recorded in any map / tracker field of the writer on this path
 		}
 		var pfs []pathFacts
 		for _, r := range res {
@@ -153,7 +157,7 @@ func (w *world) ruleRef(a *agg, stats *counters) {
 			}
 			st := r.St
 			if r.Kind == "return" {
-				pf := pathFacts{appends: map[string]string{}, inserts: map[string]bool{}}
+				pf := pathFacts{appends: map[string]string{}, appPos: map[string]Poly{}, inserts: map[string]bool{}}
 				for _, e := range st.events {
 					if e.Depth != 0 {
 						continue
@@ -162,17 +166,26 @@ func (w *world) ruleRef(a *agg, stats *counters) {
 					case "append":
 						if tables[e.Field] {
 							pf.inserts[e.Field.Name()] = true
+							for _, el := range e.Elems {
+								walkNums(st, el, 0, func(p Poly) { pf.recVals = append(pf.recVals, p) })
+							}
 						} else if e.Field != nil {
 							pf.appends[e.Field.Name()] = P.Pos(ssau.PosOf(e.Instr))
+							pf.appPos[e.Field.Name()] = e.LenOld
 						}
 					case "mapupdate":
-						if m, ok := e.Map.(MapV); ok && m.Org != nil && tables[m.Org.Field] {
-							pf.inserts[m.Org.Field.Name()] = true
+						if m, ok := e.Map.(MapV); ok && m.Org != nil && m.Org.Obj.Extern {
+							if tables[m.Org.Field] {
+								pf.inserts[m.Org.Field.Name()] = true
+							}
+							walkNums(st, e.New, 0, func(p Poly) { pf.recVals = append(pf.recVals, p) })
 						}
 					}
 				}
 				pfs = append(pfs, pf)
 			}
+			w.collectKeyShapes(x, r, tables, &shapes)
+			w.checkEmittedIndices(a, rg, x, r, fname)
 			var caps []capture
 			add := func(av AV, rule, sink string, in ssa.Instruction) {
 				walkNums(st, av, 0, func(p Poly) {
@@ -368,6 +381,7 @@ func (w *world) ruleRef(a *agg, stats *counters) {
 				}
 			}
 		}
+		w.checkKeyShapes(a, rg, fname, shapes)
 		// DEDUP-1(d): an entry appended to a deduplicated slice is recorded in its table on the same path
 		for _, xf := range sortedKeys(pairTX) {
 			tab := pairTX[xf]
@@ -377,7 +391,15 @@ func (w *world) ruleRef(a *agg, stats *counters) {
 			for _, pf := range pfs {
 				if pos, app := pf.appends[xf]; app {
 					n++
-					if !pf.inserts[tab] {
+					// recorded in the table, or — when the function splits its bookkeeping over several
+					// maps — the element's position is recorded in some map of the writer
+					rec := pf.inserts[tab]
+					for _, v := range pf.recVals {
+						if v.equal(pf.appPos[xf]) {
+							rec = true
+						}
+					}
+					if !rec {
 						okAll, where = false, pos
 					}
 				}
@@ -395,6 +417,7 @@ func (w *world) ruleRef(a *agg, stats *counters) {
 	w.dedupKeys(a, tables)
 	w.c.R.Floor("REF-1", 15)
 	w.c.R.Floor("DEDUP-1", 9)
+	w.c.R.Floor("DEDUP-2", 2)
 }
 
 func (w *world) readsLenOfWriterField(fn *ssa.Function) bool {
